@@ -75,8 +75,7 @@ def _parents(fn_node):
 def _read_only_under_rank_guard(I, node) -> bool:
     """The quotient at `node` is assigned to a local that is read only inside an `if` whose test compares two
     `.rank`-like attribute reads (the use guard)."""
-    fr = I.stack[-1]
-    fn = fr.node
+    fn = next((f.node for f in reversed(I.stack) if isinstance(f.node, (ast.FunctionDef, ast.AsyncFunctionDef))), I.stack[-1].node)  # comprehensions have frames of their own
     par = getattr(I, "_parents_cache", {}).get(id(fn))
     if par is None:
         par = _parents(fn)
@@ -85,7 +84,10 @@ def _read_only_under_rank_guard(I, node) -> bool:
     st = node
     while st in par and not isinstance(st, ast.stmt):
         st = par[st]
-    if not isinstance(st, ast.Assign) or len(st.targets) != 1 or not isinstance(st.targets[0], ast.Name) or st.value is not node:
+    # the quotient itself, or a list of it per normaliser (`[e / s for s in sum_q]`, read by position under the guard)
+    direct = isinstance(st, ast.Assign) and st.value is node
+    per_position = isinstance(st, ast.Assign) and isinstance(st.value, ast.ListComp) and st.value.elt is node and len(st.value.generators) == 1 and not st.value.generators[0].ifs
+    if not isinstance(st, ast.Assign) or len(st.targets) != 1 or not isinstance(st.targets[0], ast.Name) or not (direct or per_position):
         return False
     name = st.targets[0].id
     loop = st
@@ -95,6 +97,8 @@ def _read_only_under_rank_guard(I, node) -> bool:
         if isinstance(n, ast.Name) and n.id == name and isinstance(n.ctx, ast.Load):
             g = n
             guarded = False
+            if per_position and not (isinstance(par.get(n), ast.Subscript) and par[n].value is n and isinstance(par[n].ctx, ast.Load)):
+                return False  # the list escapes or is read other than element by element
 
             def rank_guard(test):
                 # a comparison of the same per-team quantity at two teams: x.rank <op> y.rank, or ranks[q] <op> ranks[i]
@@ -131,9 +135,10 @@ def install_lemmas(w, prog, roles, lemmas: Dict[str, str]) -> None:
     I.number_locals = True  # value numbering of sym-less locals, so that dividend and divisor can be recognised
 
     def _unbounded_quotient(I, node, a, b, res) -> None:
-        # a quotient of two positive rating-dependent quantities that the intervals cannot bound usefully and no lemma matched:
-        # the interval results of this run downstream of it are inconclusive (reshaped code, e.g. a running-sum normaliser)
-        if (_in_kernel(I) and res.rng is not None and res.rng.hi > 1e9 and a.rng is not None and b.rng is not None and a.rng.ge0() and b.rng.ge0()
+        # a softmax-shaped quotient (an exponential of rating data over a positive rating-dependent normaliser) that the intervals
+        # cannot bound and no lemma matched: the interval results of this run downstream of it are inconclusive (reshaped code,
+        # e.g. a running-sum normaliser). Other unbounded quotients (sigma^2 / c, 1 / c) are bounded by nothing and expected.
+        if (a.sym is not None and a.sym[0] == "call" and a.sym[1] == "math.exp" and _in_kernel(I) and res.rng is not None and res.rng.hi > 1e9 and a.rng is not None and b.rng is not None and a.rng.ge0() and b.rng.ge0()
                 and ({"MU", "SIGMA"} & set(a.prov)) and ({"MU", "SIGMA"} & set(b.prov))):
             I.event("lemma-failed", node, name="L-QUOT", why="a quotient of two positive rating-dependent quantities could not be bounded (no relational lemma matches its shape)")
 
